@@ -322,6 +322,8 @@ def explore(ctx, res, replay=None):
         p = progs[pi]
         line = iout[cid]
         res.evaluations += 1
+        if line == 'SKIPPED':
+            continue
         sts, tail = parse_states(line)
         case = {'source': p['source'], 'history': hist}
         if any(c[0] in 'XI' for c in hist) and any(c[0] in 'BCSR' for c in hist):
